@@ -359,6 +359,10 @@ func ConvertToJSON(val lua.LValue) string {
 		}
 		return "false"
 	case lua.LTNumber:
+		if f := float64(val.(lua.LNumber)); math.IsNaN(f) || math.IsInf(f, 0) {
+			// not representable as a JSON number
+			return `"` + val.String() + `"`
+		}
 		return val.String()
 	case lua.LTString:
 		if b, err := json.Marshal(val.String()); err != nil {
@@ -382,8 +386,12 @@ func ConvertToJSON(val lua.LValue) string {
 			start = `{`
 			end = `}`
 			cb = func(lk lua.LValue, lv lua.LValue) {
-				values = append(
-					values, ConvertToJSON(lk)+`:`+ConvertToJSON(lv))
+				key := ConvertToJSON(lk)
+				if lk.Type() != lua.LTString {
+					// JSON member names are strings
+					key = `"` + lk.String() + `"`
+				}
+				values = append(values, key+`:`+ConvertToJSON(lv))
 			}
 		}
 		tbl.ForEach(cb)
